@@ -181,6 +181,7 @@ pub fn run(rep: &Report, models: &[ModelDef], o: &Opts) {
         let mut ctx = ModelCtx::new(&d.name, &d.pats, d.kind, d.ci);
         let mut cfgs = low.clone();
         cfgs.extend(top.iter().cloned());
+        cfgs.retain(|c| c.applicable(d.kind, d.ci));
         if let Err((c, e)) = ctx.build(&cfgs) {
             rep.violation(Violation {
                 property: rep.property.clone(),
@@ -810,7 +811,7 @@ pub fn replay_table(case: &J) -> i32 {
         let cfgs: Vec<Cfg> = if let Some(list) = cfgname.strip_prefix("jointdeep:") {
             list.split('+').filter_map(Cfg::parse).collect()
         } else {
-            low_reps().into_iter().map(|r| Cfg { rep: r, pre }).collect()
+            low_reps().into_iter().map(|r| Cfg { rep: r, pre }).filter(|c| c.applicable(kind, ci)).collect()
         };
         for c in cfgs {
             match aut::build(&pats, kind, ci, c) {
